@@ -12,7 +12,12 @@ HOSTILE_LINES = [b"", b"\x00", b"\xff\xfe\xfd", b"{", b"}", b"[", b'{"a":', b'{"
                  b'{"a":"\\ud800"}', b'{"a":"\\u0000"}', b"a=", b"=b", b'a="', b'a="\\', b"a=b c", b"\"", b"a.b.c.d", b"999.999.999.999", b"1.2.3.4.5.6", b"::", b"::ffff:1.2.3.4", b"f.e.d.c",
                  b"e.g. failed. retrying", b"cache/a.db:", b"\x1b[", b"\x1b[31", b"\x1b]0;title\x07", b"\xc2\x9b31m", b"%s%d%n", b"{{.x}}", b"<a>", b"<_>", b" " * 64,
                  b"x" * 5000, b'{"_entry":1}', b'{"_entry":"e","0bad":"x"}', b'{"a":[[[[[[[[[[1]]]]]]]]]]}', b"NaN", b"+Inf", b"-Inf", b"0x1p-2", b"1_000", b"9" * 400,
-                 b"1h1h1h1h1h", b"99999999999999999999h", b"1EiB", b"99999999999999999999999GB", b"-5KB", b"5 K B"]
+                 b"1h1h1h1h1h", b"99999999999999999999h", b"1EiB", b"99999999999999999999999GB", b"-5KB", b"5 K B",
+                 b'{"ids":[1,null,3]}', b'{"obj":{"list":[null]}}', b'{"a":null,"b":[null,null]}', b"[null]", b'{"a":[{"b":null}]}', b'{"_entry":null}', b'{"a":9007199254740993}',
+                 b'a=1 a=2 a', b'{"a":"b"} trailing', b'{"a":1}{"a":2}']
+SWEEP_STAGES = ['| json', '| json a, ids, obj', '| json x="a", y="obj.list[0]", z="ids[1]"', '| logfmt', '| logfmt a, b', '| unpack', '| regexp `(?P<k>[a-z]+)=(?P<v>[^ ]*)`',
+                '| pattern "<a> <b>"', '| pattern "<_>=<v>"', '| decolorize', '| line_format "{{ .a }}/{{ __line__ }}"', '| label_format z="{{ .a | ToUpper }}"', '|= ip("10.0.0.0/8")',
+                '!= ip("::1")', '| json | a > 1', '| json | drop a | keep b', '| json | distinct a', '| json | a == ip("10.0.0.1")', '| logfmt | a > 5KB or b < 1m']
 HOSTILE_VALUES = ["NaN", "+Inf", "-Inf", "1e999", "-1e999", "0x10", "1_0", "", " ", "9" * 30, "-0", "1e-400", "99999999999999999999h", "1.5.5", "5XB", "١٢٣", "\x00"]
 BAD_QUERIES = [
     ('{a="b"} |~ "("', True), ('{a=~"["}', True), ('{a="b"} | regexp "(?P<x>"', True), ('{a="b"} | regexp "no_named_group"', False),
@@ -51,6 +56,17 @@ class P:
         cases = []
         for q, must_err in BAD_QUERIES:
             cases.append(self.mk(rng, g, [q.encode()], self.hostile_records(rng, g, 4), "user-mistake", expect_error=must_err))
+        # user mistakes that the parser accepts and only pipeline building rejects, inside metric queries
+        for q, must_err in BAD_QUERIES:
+            if q.startswith('{a="b"} |') and must_err and "unwrap" not in q:
+                for w in ('count_over_time(%s [1m])', 'sum by (a) (bytes_rate(%s [1m]))', 'vector(1) + count_over_time(%s [1m])', 'count_over_time(%s [1m]) > bool 0'):
+                    cases.append(self.mk(rng, g, [(w % q).encode()], self.hostile_records(rng, g, 4), "user-mistake", expect_error=True))
+        # every parser / rewriting stage over every hostile line, as log query and inside a range aggregation
+        allrecs = [g.rec_json({"ts": T0 + i * (S // 4), "line": l, "attrs": [("app", "a"), ("n", HOSTILE_VALUES[i % len(HOSTILE_VALUES)])], "res": [("job", "x")]})
+                   for i, l in enumerate(HOSTILE_LINES)]
+        for st in SWEEP_STAGES:
+            cases.append(self.mk(rng, g, [('{job="x"} ' + st).encode()], allrecs, "stage-sweep", expect_result=True))
+            cases.append(self.mk(rng, g, [('sum by (app) (count_over_time({job="x"} %s [5s]))' % st).encode()], allrecs, "stage-sweep", expect_result=True))
         for i in range(n):
             k = i % 6
             recs = self.hostile_records(rng, g, rng.randint(1, 10))
